@@ -160,7 +160,7 @@ def oracle(script: dict, run: Any) -> List[Violation]:
 def probes(script: dict, run: Any) -> Dict[str, int]:
     h = Hist(run)
     res = {"timeout_enforced": 0, "timeout_race_window": 0, "base_exception_stored": 0, "save_failed_and_continued": 0,
-           "no_result_skipped": 0, "sync_task": 0, "decode_failed": 0}
+           "no_result_skipped": 0, "sync_task": 0}
     for e in h.kind("fn_exit"):
         if e[5].get("how") == "cancelled":
             res["timeout_enforced"] = 1
